@@ -170,12 +170,13 @@ func (r *DeviceLocal) RemoveRemoteDevice(ski string) {
 	r.mux.Lock()
 	delete(r.remoteDevices, ski)
 	remainingDevices := len(r.remoteDevices)
-	r.mux.Unlock()
 
 	// only unsubscribe if we don't have any remote devices left
+	// still under the lock, otherwise a device connecting right now would lose the subscription it relies on
 	if remainingDevices == 0 {
 		_ = Events.unsubscribe(api.EventHandlerLevelCore, r)
 	}
+	r.mux.Unlock()
 
 	remoteDeviceAddress := &model.DeviceAddressType{
 		Device: remoteDevice.Address(),
